@@ -6,10 +6,15 @@ Driver for E5 (C08, C10).
 
 * model side: every harness op is translated into the label list of `Resume.Model` it stands for
   (e.g. `sclose` = SCLOSE then CUT of the released exchange; `delete` = END then CUT of every hanging
-  exchange) and the model's observation is rendered in the harness' canonical format;
-* monitor side: C08 and C10 as decidable predicates on what the *implementation* reported
-  (independent of the model state): ground-truth append log per (session, stream), per exchange the
-  received (id, payload) list, the routing function on payload provenance tags.
+  exchange; evictions the store reports (`p:` tokens) become EVICT labels) and the model's observation is
+  rendered in the harness' canonical format;
+* monitor side: C08 and C10 are the typed core `Resume.Mon.step` (`McpModel.Resume.Monitor`) — decidable
+  predicates on what the *implementation* reported, independent of the model state: ground-truth append
+  log per (session, stream), per exchange the resume point and the events received, the routing function on
+  payload provenance tags.  This file only parses the harness' tokens into the typed observation
+  (`parseObs`) and adds two op-level checks (a response the handler produced must not vanish).  That the
+  core raises no clause on any model trace, and what each clause means, are theorems
+  (`Accept08`, `Accept10`, `Sound08`, `Sound10`).
 
 `drv_resume C08` / `drv_resume C10` restrict the reported monitor clauses to one property.
 Payloads are opaque strings (`α := String`).
